@@ -147,7 +147,7 @@ def _exec_open_ended(spec):
     token with a descriptor).  Whatever the scheduler picks: every yielded molecule is complete, and iteration ends either by
     refusing (an exception) or, silently, only once the yielded mass has reached the system mass.  No AST is involved."""
     from .. import boot
-    from ..seams import DrawDiverges, World
+    from ..seams import DrawDiverges, World, _heavy_mass
     from ..simrng import BudgetExceeded, Scheduler, SimAbort, SimRng
 
     g = boot.load()
@@ -180,9 +180,10 @@ def _exec_open_ended(spec):
                         viols.append({"property": "C13", "invariant": "yield_after_system_mass",
                                       "msg": f"a molecule was yielded although the accumulated mass {total} had reached the system mass {M}", "features": feats})
                     stats["yields"] += 1
-                    total += float(member.weight)
-                    world.event({"k": "op", "op": "yield", "w": float(member.weight), "cum": total})
-                    if not member.fully_generated:
+                    w_m = _heavy_mass(member)
+                    total += w_m
+                    world.event({"k": "op", "op": "yield", "w": w_m, "cum": total})
+                    if not member.fully_generated or len(member.bond_descriptors) != 0:
                         viols.append({"property": "C13", "invariant": "member_not_fully_generated",
                                       "msg": f"iterating {spec['text']!r} yielded a molecule with open descriptors: {member.smiles}", "features": feats})
                         break
